@@ -13,7 +13,13 @@ for d in sorted(glob.glob('/verif/seeded/C*/*/')):
     confirmed = (conf['patch_applies'] == 'yes' and conf['pinned_suite_with_mutant'] == 'passed' and conf['suite_compiled_data_with_mutant'] == 'passed'
                  and conf['demo_with_mutant'] == 'failed' and conf['demo_without_mutant'] == 'passed')
     checks = ver.get('checks_quick', {})
-    res = ', '.join(f"{k}: {'caught' if v['exit'] == 1 else ('missed' if v['exit'] == 0 else 'exit ' + str(v['exit']))} ({v['seconds']} s)" for k, v in checks.items())
+    def word(v):
+        return 'caught' if v['exit'] == 1 else ('not caught' if v['exit'] == 0 else 'exit ' + str(v['exit']))
+    home = checks.get(pid)
+    res = (f"{pid}: {word(home)} ({home['seconds']} s)" if home else f"{pid}: not run")
+    others = [f"{k} {word(v)}" for k, v in checks.items() if k != pid]
+    if others:
+        res += '; neighbouring checks tried in the first run of this change: ' + ', '.join(others)
     title = meta.get('title', '').replace('|', '/')
     files = ', '.join(os.path.basename(f) for f in meta.get('files_touched', []))
     needs = meta.get('needs_to_manifest', '').replace('|', '/').replace('\n', ' ')
@@ -22,7 +28,7 @@ for d in sorted(glob.glob('/verif/seeded/C*/*/')):
     if ver.get('note'):
         res += ' - ' + ver['note']
     rows.append((pid, letter, title, files, needs, 'yes' if confirmed else 'NO: ' + json.dumps(conf), res))
-print('| change | what was changed (file) | needs, to manifest | confirmed | /verif quick checks |')
+print('| change | what was changed (file) | needs, to manifest | confirmed | quick check of the home property (current machinery) |')
 print('|---|---|---|---|---|')
 for r in rows:
     print(f'| {r[0]}/{r[1]} | {r[2]} ({r[3]}) | {r[4]} | {r[5]} | {r[6]} |')
